@@ -242,7 +242,14 @@ fn main() {
             let mut ok = true;
             let lines: Vec<&str> = input.lines().collect();
             let mut index = 0;
+            // the profile of the recorded case travels with it: some monitors are meaningful on one profile only
+            // (C03: no key is lost while the demanded weight fits — profile nopressure), and a replayed or shrunk case
+            // (events are only ever removed) is still a case of that profile
+            let mut profile_note = String::new();
             while index < lines.len() {
+                if let Some(rest) = lines[index].strip_prefix("# case ") {
+                    profile_note = rest.split(' ').find(|token| token.starts_with("profile=")).map(|token| format!(" {}", token)).unwrap_or_default();
+                }
                 if !lines[index].starts_with("C ") { index += 1; continue; }
                 let cfg = gen::parse_cfg(lines[index]);
                 let mut events = Vec::new();
@@ -255,7 +262,7 @@ fn main() {
                     index += 1;
                 }
                 let mut position = 0;
-                if !run_case(&mut sink, "# case replay", cfg, |_, _, _| { let ev = events.get(position).cloned(); position += 1; ev }) { ok = false; break; }
+                if !run_case(&mut sink, &format!("# case replay{}", profile_note), cfg, |_, _, _| { let ev = events.get(position).cloned(); position += 1; ev }) { ok = false; break; }
             }
             sink.flush();
             ok
